@@ -125,7 +125,9 @@ static void closed_file_ops(var f, const char* after) {
   vh_count("closed_file_probes");
 }
 
-static const char* MODES[] = { "w", "wb", "w+", "w+b", "r", "rb", "r+", "a", "ab", "a+" };
+static const char* MODES[] = { "w", "wb", "w+", "w+b", "r", "rb", "r+", "a", "ab", "a+",
+                               "wb+", "rb+", "ab+", "r+b", "a+b" };     /* both spellings of the binary update modes */
+enum { NMODES = sizeof MODES / sizeof MODES[0] };
 
 static void case_random(vh_rng* r, long index) {
   (void)index;
@@ -146,7 +148,7 @@ static void case_random(vh_rng* r, long index) {
     opd[0] = 0;
     if (!R.open) {
       if (roll < 85) {
-        const char* mode = MODES[vh_below(r, 10)];
+        const char* mode = MODES[vh_below(r, NMODES)];
         if (mode[0] == 'r' && !exists) { mode = "w+"; }
         snprintf(opd, sizeof opd, "sopen(\"%s\")", mode);
         vh_op("%s", opd);
@@ -154,6 +156,7 @@ static void case_random(vh_rng* r, long index) {
         if (exc) { vh_violation("C20:open:sopen-raised", "%s raised %s", opd, vh_exc_name(exc)); break; }
         ref_open(mode);
         if (strchr(mode, 'a')) { vh_count("append_opens"); }
+        if (strlen(mode) == 3 && mode[2] == '+') { vh_count("opens_in_a_binary_update_mode_spelled_with_the_plus_last"); }
       } else {
         snprintf(opd, sizeof opd, "closed-file probes");
         closed_file_ops(f, "while closed");
@@ -290,7 +293,7 @@ static void case_random(vh_rng* r, long index) {
       continue;
     } else {
       /* reopen on the same object while it is open: the old stream must be closed exactly once */
-      const char* mode = MODES[vh_below(r, 10)];
+      const char* mode = MODES[vh_below(r, NMODES)];
       if (mode[0] == 'r' && !exists) { mode = "w+"; }
       /* half of the time through the constructor: construct(f, path, mode) on a File that is open is a reopen as well */
       int by_construct = vh_chance(r, 50);
